@@ -3,8 +3,9 @@
 Proof:  Pdlv/Thm/C14_cxx.lean — the model of the parsers cxx.rs emits (Pdlv.Cxx: struct Parse, view Parse + getters,
         slice accessor assertions, C++ integer arithmetic of count products, padding) refines the reference decoder on
         the class Cxx.wfBody: same acceptance, values and remainder, and no failed assertion, for every byte string
-        (struct_parser_agrees_with_reference, struct_parser_no_undefined_behaviour); the recorded deviations as
-        theorems about the model.  Pdlv/Thm/C14.lean — the reference (Pdlv.Ref) with its spec lemmas.
+        (struct_parser_agrees_with_reference, struct_parser_no_undefined_behaviour; view_agrees_with_reference,
+        view_no_undefined_behaviour for packet views and their getters); serializer_writes_reference for the model of
+        Builder::Serialize; the recorded deviations as theorems about the model.  Pdlv/Thm/C14.lean — the reference (Pdlv.Ref) with its spec lemmas.
 Tie:    the module emitted by the pdlc built from /repo is imported in a child process (both
         endiannesses); serialize() vs Ref.encode, parse_all(serialize(v)) vs v, parse_all(b) vs the
         reference decoder on reference encodings, single-fault mutants, all prefixes and random strings;
@@ -31,6 +32,24 @@ def corpus_texts():
 
 
 UNMODELLED = ("badLayout", "badValue", "nonTermination")
+
+
+def compare_serializer_with_model(run, d, T, v, r, me):
+    """emitted Builder::Serialize / T::Serialize vs its Lean model (Pdlv.Cxx.encBody) on one value"""
+    if me.get("r") == "panic" and me.get("h") in UNMODELLED:
+        run.hist("cxx_ser_model", "unmodelled:" + str(me.get("h")))
+        return
+    if r.get("r") == "badvalue":
+        return
+    cls = "ok" if r.get("r") == "ok" else "fail"
+    mcls = "ok" if me.get("r") == "ok" else "fail"
+    run.hist("cxx_ser_model", "%s/%s" % (cls, mcls))
+    rep = {"pdl": d["text"], "type": T, "value": v, "cxx": r, "model_of_emitted_code": me, "corr": "corr:C14/serialize"}
+    if cls != mcls or (cls == "ok" and r.get("hex") != me.get("hex")):
+        run.violation("corr", "C++ serializer model and emitted serializer disagree on a %s: emitted %s, model %s" %
+                      (T, (r.get("hex") or r.get("r"))[:60], (me.get("hex") or me.get("r"))[:60]), rep, found_input=False)
+    else:
+        run.count("serializer_model_agreements")
 
 
 def compare_with_model(run, d, T, s, kind, r, mc, is_struct, tags):
@@ -107,6 +126,13 @@ def model_pass(run, a):
             refs = be.model(i, T, [{"k": "ref", "v": v} for v in vals])
             if not isinstance(refs, list):
                 continue
+            mes = be.model(i, T, [{"k": "cxxenc", "v": v} for v in vals])
+            if isinstance(mes, list):
+                # (values the reference assigns an encoding to: beyond them `GetSize()` and the octets written part ways —
+                #  an array longer than its padding — and the model's size expression is the reference's)
+                for v, me, rf in zip(vals, mes, refs):
+                    if rf.get("r") == "ok":
+                        compare_serializer_with_model(run, d, T, v, be.ask(i, T, "enc", v), me)
             strings = [("empty", b"")]
             for rf in refs:
                 if rf.get("r") == "ok":
@@ -176,13 +202,31 @@ def main(argv):
                 run.hist("model_status", str(refs))
                 continue
             seeds = []
-            for v, rf in zip(vals, refs):
+            mes = be.model(i, T, [{"k": "cxxenc", "v": v} for v in vals]) if not decl.get("parent_id") else None
+            # theorem serializer_writes_reference: hypotheses on this layout, statement evaluated on every value of the run
+            ser_class = False
+            if isinstance(mes, list):
+                hyp0 = be.model(i, T, [{"k": "len", "v": {}}])
+                ser_class = bool(isinstance(hyp0, list) and hyp0[0].get("cxxserwf") and hyp0[0].get("refwf"))
+                run.hist("theorem_hypotheses", "Cxx.serWfBody&refWfBody:%s" % ser_class)
+                if ser_class:
+                    ide = be.model(i, T, [{"k": "enc", "v": v} for v in vals])
+                    for v, me, rf, ie in zip(vals, mes, refs, ide if isinstance(ide, list) else []):
+                        if ie.get("r") == "ok":
+                            run.count("theorem_instances")
+                            if me.get("r") != "ok" or me.get("hex") != ie.get("hex") or rf.get("hex") != ie.get("hex"):
+                                run.violation("corr", "theorem serializer_writes_reference contradicted by evaluation on %s (model bug)" % T,
+                                              {"pdl": d["text"], "type": T, "value": v, "model_of_emitted_code": me, "reference": rf,
+                                               "corr": "thm:serializer_writes_reference"}, found_input=False)
+            for n_v, (v, rf) in enumerate(zip(vals, refs)):
                 if rf.get("r") != "ok":
                     continue
                 run.case((d["text"], T, W.canon(v)))
                 r = be.ask(i, T, "enc", v)
                 rep = {"pdl": d["text"], "type": T, "value": v, "cxx": r, "reference": rf}
                 run.hist("enc_outcomes", str(r.get("r")))
+                if isinstance(mes, list):
+                    compare_serializer_with_model(run, d, T, v, r, mes[n_v])
                 if r.get("r") == "badvalue":
                     continue
                 if r.get("r") != "ok":
